@@ -327,6 +327,79 @@ func runC19(c *core.Ctx) {
 				}
 			}
 			c.Check(good, "R3", "wrapper-Get/"+rel, p.Pos(get.Pos()), "returns the pooled object or a fresh one of the class size", "wrapper Get: "+why)
+			// exclusive ownership: what the wrapper hands out is what the generic pool handed to it, or a fresh object;
+			// what it is given goes to the generic pool and nowhere else (no second cache in front of the pool)
+			c.Instance("R3")
+			srcOK, srcWhy := true, ""
+			core.AllInstrs(get, func(in ssa.Instruction) {
+				ret, ok := in.(*ssa.Return)
+				if !ok || len(ret.Results) == 0 {
+					return
+				}
+				seen := map[ssa.Value]bool{}
+				var walk func(v ssa.Value, d int)
+				walk = func(v ssa.Value, d int) {
+					if seen[v] || d > 8 || !srcOK {
+						return
+					}
+					seen[v] = true
+					switch x := v.(type) {
+					case *ssa.Const, *ssa.Alloc, *ssa.MakeSlice:
+						return
+					case *ssa.Phi:
+						for _, e := range x.Edges {
+							walk(e, d+1)
+						}
+					case *ssa.Extract:
+						if x.Tuple == gcall {
+							return
+						}
+						walk(x.Tuple, d+1)
+					case *ssa.TypeAssert:
+						walk(x.X, d+1)
+					case *ssa.ChangeType:
+						walk(x.X, d+1)
+					case *ssa.MakeInterface:
+						walk(x.X, d+1)
+					case *ssa.Call:
+						if v == gcall {
+							return
+						}
+						if o := core.CalleeObj(x); o != nil && o.Pkg() != nil && o.Pkg().Path() == "bytes" && strings.HasPrefix(o.Name(), "NewBuffer") {
+							return // fresh buffer
+						}
+						srcOK, srcWhy = false, "returns the result of "+x.Call.String()
+					default:
+						srcOK, srcWhy = false, "returns "+v.String()
+					}
+				}
+				walk(ret.Results[0], 0)
+			})
+			c.Check(srcOK, "R3", "wrapper-Get/"+rel+"/object-source", p.Pos(get.Pos()), "hands out only what the generic pool returned, or a fresh object", "wrapper Get hands out an object that neither comes from the generic pool nor is freshly allocated ("+srcWhy+"): a cache beside the pool has to guarantee exclusive ownership itself")
+			c.Instance("R3")
+			sinkOK, sinkWhy := true, ""
+			if len(put.Params) >= 2 {
+				obj := put.Params[len(put.Params)-1]
+				if obj.Referrers() != nil {
+					for _, ref := range *obj.Referrers() {
+						switch x := ref.(type) {
+						case *ssa.UnOp, *ssa.BinOp, *ssa.DebugRef, *ssa.If:
+							// *obj (for cap/len), obj == nil
+						case *ssa.Call:
+							if callee := x.Call.StaticCallee(); callee != nil && callee.Origin() != nil && callee.Origin().Name() == "Put" {
+								continue
+							}
+							if o := core.CalleeObj(x); o != nil && o.Pkg() != nil && o.Pkg().Path() == "bytes" && len(x.Call.Args) > 0 && x.Call.Args[0] == ssa.Value(obj) {
+								continue // a method of the buffer itself (Reset, Cap, Len)
+							}
+							sinkOK, sinkWhy = false, "passes it to "+x.Call.String()
+						default:
+							sinkOK, sinkWhy = false, "uses it in "+ref.String()
+						}
+					}
+				}
+			}
+			c.Check(sinkOK, "R3", "wrapper-Put/"+rel+"/object-sink", p.Pos(put.Pos()), "the returned object goes to the generic pool only", "wrapper Put keeps the object somewhere besides the generic pool ("+sinkWhy+"): it can be handed out from there while the pool also owns it, or to two callers at once")
 			// R4
 			c.Instance("R4")
 			var pcall ssa.Instruction
